@@ -47,6 +47,7 @@ REQUIRED_CLAUSES = ["ellipse.identity", "rp==a*rho_cosphi", "rm.equator-pole",
                     "height-increment", "set()-history-independent",
                     "independent-of-other-instances", "distance.symmetric",
                     "distance.coincident==0", "distance.equator",
+                    "distance.argument-forms-agree",
                     "distance.meridian", "distance.within-0.6%-of-sphere",
                     "parallax.bounded", "parallax.tends-to-zero",
                     "parallax_ecl.bounded", "parallax_ecl.tends-to-zero"]
@@ -245,6 +246,30 @@ def case_distance(mon, a, f, lon1, lat1, lon2, lat2, kind):
         return
     mon.check("distance.finite", d12 == d12 and d12 >= 0.0
               and abs(d12) != math.inf, dict(case, d=d12))
+    # each coordinate is documented as int, float or Angle: the form of every
+    # argument drawn on its own (a longitude as an Angle next to a latitude
+    # as a number, ...), same point, same distance
+    import random as _random
+    from pymeeus.Angle import Angle
+    frng = _random.Random(repr(ident))
+    mixed, forms = [], []
+    for v in (lon1, lat1, lon2, lat2):
+        k = frng.choice(("float", "Angle", "Angle", "int"))
+        if k == "int" and (v != int(v)):
+            k = "float"
+        forms.append(k)
+        mixed.append(Angle(v) if k == "Angle" else int(v) if k == "int"
+                     else v)
+    if abs(lon1) < 360.0 and abs(lon2) < 360.0:
+        try:
+            dm, _e = e.distance(*mixed)
+            mon.check("distance.argument-forms-agree",
+                      abs(dm - d12) <= 1e-9 * max(d12, 1e-9),
+                      lambda: dict(case, forms=forms, mixed=dm, floats=d12))
+        except Exception as ex:
+            mon.dev("distance.argument-forms-agree",
+                    dict(case, forms=forms, raised=repr(ex)))
+        mon.cls("distance-forms:" + "/".join(forms), ident)
     mon.check("distance.symmetric", abs(d12 - d21) <= 1e-9 * max(d12, 1e-9),
               dict(case, d12=d12, d21=d21))
     sep = sp.sep_ll(lon1, lat1, lon2, lat2)
